@@ -35,12 +35,36 @@ CLAIMED = {
              "instances), the 18 portable error kinds round-trip and all others degrade to Other over the tables "
              "REGENERATED from util/serde.rs on every run (incl. the written integer type), witness theorem for the "
              "pre-fix i32/u32 mismatch; tied to the code byte-exactly: real bincode encodings == model encodings, real "
-             "decodes of valid/mutated/truncated bytes == model decodes.",
+             "decodes of valid/mutated/truncated bytes == model decodes. Stream level: length-delimited framing decoder as a "
+             "state machine with theorems for EVERY chunking of the byte stream (frames emitted exactly, in order; "
+             "truncation never yields a short message; oversize rejected), FIFO/EOF theorems for the in-memory and framed "
+             "pipes under every interleaving of send/flush/recv/close/drop; tied to the real FramedRead codec and to the "
+             "real serde_transport (bincode, JSON) over a fragmenting duplex plus the in-memory channels.",
         note="Trusted: Lean kernel; axioms propext/Classical.choice/Quot.sound; translator (tables), harness + ./check; "
-             "bincode 1.3 / serde-derive schema as modelled. Length-delimited framing under arbitrary fragmentation, "
-             "in-memory FIFO transports and the JSON form are added as further families/theorems of this check as they land.",
+             "bincode 1.3 / serde-derive schema and LengthDelimitedCodec as modelled. The JSON text form has no Lean model: "
+             "it is covered by the end-to-end correspondence family only (partial).",
         technique="Lean 4 codec round-trip proofs over translator-generated tables + byte-exact model/implementation correspondence",
         design="8/C15"),
+    "C17": dict(
+        text="Lean 4 theorems over a model of #[tarpc::service] as name tables (all service definitions: any number of "
+             "methods/args, raw identifiers, any cfg pattern, any derive option): client method i -> request variant -> "
+             "server arm -> trait method i with the same arguments in order and the context, response variant unwrapped by "
+             "the same client method (roundtrip, call, call_exact), name() = <Service>.<method> as written (raw keeps r#), "
+             "exact characterisation of snake_to_camel collisions and their rejection, reserved/raw-reserved names, "
+             "non-identifier args, ctx/duplicate arg names, invalid or `Self` variants, no-surviving-method services all "
+             "rejected; snake_to_camel facts (no underscore, length, stabilises after two steps, case/underscore "
+             "insensitivity); tied to the code by differential execution of the real snake_to_camel text (extracted by "
+             "build.rs) and by compiling PRNG service definitions with the real macro, calling every generated client "
+             "method through a real in-memory client/server pair and comparing name(), request Debug, the implementor's "
+             "record and the returned value with the model; 29 must-fail programs checked to be rejected in the class the "
+             "model predicts.",
+        note="Trusted: Lean kernel; axioms propext/Classical.choice/Quot.sound; rustc's checks on the expansion are the "
+             "explicit predicate Macro.rustcOk (each clause reproduced by a negative program); ASCII identifiers only; the "
+             "channel carries request+context unchanged (in-memory transport; only trace id and deadline compared); "
+             "tools/c17_gen.py + tools/vlib/c17_extra.py + harness + ./check.",
+        technique="Lean 4 proofs over generated name tables (first-match lookup, Nodup) + differential test of the real "
+                  "macro function and of real macro expansions compiled by rustc",
+        design="8/C17"),
     "C19": dict(
         text="Lean 4 theorems over an executable model of the request-hook combinators (HookThenServe, ServeThenHook, "
              "HookThenServeThenHook, BeforeRequestCons/Nil, then, serving), for every wrapper stack, hook script, "
